@@ -3,7 +3,7 @@
    Schema/StoreModel.v, the vocabulary Spec/StoreSpec.v. *)
 From PyGql Require Import Spec.StoreSpec Proofs.StoreProofs Proofs.StoreHeal Proofs.StoreLoop
      Proofs.StoreFrame Proofs.StoreClone Proofs.StoreOps Proofs.StoreTerm Proofs.StoreObserve
-     Spec.StoreExtSpec Proofs.StoreExtendP Proofs.StoreExtPres Proofs.StoreVis Proofs.StoreVisM Proofs.StoreCloneP Proofs.StoreDesc Proofs.StoreXform Proofs.StoreCamelC Proofs.StoreGen Proofs.StoreVisC.
+     Spec.StoreExtSpec Proofs.StoreExtendP Proofs.StoreExtPres Proofs.StoreVis Proofs.StoreVisM Proofs.StoreCloneP Proofs.StoreDesc Proofs.StoreXform Proofs.StoreCamelC Proofs.StoreGen Proofs.StoreVisC Proofs.StoreSim Proofs.StoreCloneO.
 Local Open Scope N_scope.
 
 (* Schema(query, mutation, subscription, directives, types): whenever the
@@ -312,6 +312,41 @@ Theorem C14_visibility_complete : forall fuel p m s m' s',
 Proof. exact transform_vis_complete. Qed.
 Print Assumptions C14_visibility_complete.
 
+(* The observable dump of a clone is the observable dump of its source:
+   [observe (clone s) = observe s] -- roots, every type with its members,
+   arguments, type references (wrappers, name, "is the registered object"),
+   interfaces, resolvers and applied schema directives, the directives, the
+   implementations index and the possible types of every abstract type.
+   Hypotheses ([clone_ok], Proofs/StoreCloneO.v): the source is closed and
+   well-formed, has a non-specified type, its registry is in the order
+   Schema(...) produces from its own types (so that clone and source list
+   their types in the same order; true of every schema the library built --
+   assumed here, compared by the harness on every run), its derived indexes
+   are up to date, only objects / unions carry interface / member lists, it is
+   well sorted and has no dangling reference.  Proof: the element-wise
+   correspondence of C14_clone_preserved and the closedness of both schemas
+   align the two registries entry by entry in the heap after the clone
+   (Proofs/StoreSim.v: observe_sim), and the frame property says that the
+   source's own dump is what it was before (C14_source_untouched_observe). *)
+Theorem C14_clone_observe_equal : forall fuel m s m' s',
+  clone_ok fuel m s -> clone fuel m s = Ok (m', s') ->
+  observe m' (touch_poss m' s') = observe m (touch_poss m s).
+Proof. exact clone_observe_equal_ok. Qed.
+Print Assumptions C14_clone_observe_equal.
+
+(* ... hence cloning is repeatable: a clone taken after any sequence of
+   visibility / camel-case / schema-directive / healing operations on an
+   earlier clone has the observable dump of a clone taken before (C14_repeatable
+   for clone; the hypotheses on the source are asked in both heaps). *)
+Theorem C14_clone_repeatable : forall fuel m s ops m1 c m' c' ma ra mb rb,
+  clone_ok fuel m s -> clone_ok fuel m' s ->
+  Forall (vop_ok (m_next m)) ops ->
+  clone fuel m s = Ok (m1, c) -> run_vops fuel ops m1 c = Ok (m', c') ->
+  clone fuel m s = Ok (ma, ra) -> clone fuel m' s = Ok (mb, rb) ->
+  observe mb (touch_poss mb rb) = observe ma (touch_poss ma ra).
+Proof. exact clone_repeatable. Qed.
+Print Assumptions C14_clone_repeatable.
+
 (* full statement (not proved): the result of an operation does not depend on
    the operations applied to the same source before *)
 Definition C14_repeatable_full : Prop :=
@@ -398,6 +433,33 @@ Proof.
         unfold type_typed, field_typed, leaf, mget; simpl; repeat constructor.
     + intros n d [].
   - intros e He. simpl. simpl in He. intuition.
+Qed.
+
+(* the hypotheses of C14_clone_observe_equal are satisfiable *)
+Example C14_example_clone_ok :
+  exists s, build 50 ex_mem (Some 10) None None [] [] = Ok s /\ clone_ok 50 ex_mem s.
+Proof.
+  destruct C14_example_wf as (s & Hb & Hf & Hbo & Hcl & Hwf & Hbi).
+  exists s. split; [exact Hb|]. split; [exact Hf|]. split; [exact Hbo|]. split; [exact Hcl|]. split; [exact Hwf|].
+  split; [exact Hbi|]. clear Hcl Hwf Hbi.
+  vm_compute in Hb. inversion Hb; subst s; clear Hb.
+  split; [exists (str_of_string "Query"), 10%N; split; [simpl; auto 10|reflexivity]|].
+  split; [intros s0 H0; vm_compute in H0; inversion H0; reflexivity|].
+  split; [vm_compute; reflexivity|].
+  split; [intros o l H0; simpl in H0; discriminate|].
+  split.
+  { intros n t k d ms ifs r ds Hin Hnb Hg Hk1 Hk2. simpl in Hin.
+    repeat (destruct Hin as [Heq|Hin]; [inversion Heq; subst; try discriminate Hnb; vm_compute in Hg; inversion Hg; subst; try reflexivity; congruence|]).
+    destruct Hin. }
+  split.
+  { intros n t k d ms ifs r ds x Hin Hnb Hg Hx. simpl in Hin.
+    repeat (destruct Hin as [Heq|Hin]; [inversion Heq; subst; try discriminate Hnb; vm_compute in Hg; inversion Hg; subst;
+      simpl in Hx; repeat (destruct Hx as [<-|Hx]; [try (intros a Ha; vm_compute in Ha; repeat (destruct Ha as [<-|Ha]; [vm_compute; eauto 10|]); destruct Ha);
+                                                    try (vm_compute; eauto 10)|]); destruct Hx|]).
+    destruct Hin. }
+  split; [intros n d a []|].
+  apply Forall_forall. intros o Ho. vm_compute in Ho.
+  repeat (destruct Ho as [<-|Ho]; [vm_compute; discriminate|]). destruct Ho.
 Qed.
 
 (* the hypotheses of C14_heal_terminates are satisfiable *)
